@@ -155,3 +155,34 @@ def _repair_all():
 
 FINITE.append(Finite("repair-unused-every-final-character", _repair_all,
                      "check_repair_unused of the three shipped engines on every final byte/character, every length class mod 4, text and bytes: clears exactly the unused bits, refuses foreign characters and length 1 mod 4"))
+
+
+# ---- the dot-variant and typo-correcting wrappers translate their input whatever its type ---------------------------------
+def _capture(name):
+    def f(it, a, k):
+        it.run.ghost[name] = it.resolve(a[0])
+        return SStr(z3.String(it.run.fresh("decoded")), "bytes")
+
+    return SStub(f, name)
+
+
+def _ab64_post(it, env):
+    got = it.to_z3(it.run.ghost["b64s_decode"])
+    data = SStr(it.to_z3(env.lookup("data")), "bytes")  # ASCII input: the bytes are the characters
+    want = it.to_z3(it.m_text_replace(data, b".", b"+"))  # replace-all, in the engine's own model of bytes.replace
+    return got == want  # as text or as bytes: b64s_decode takes either
+
+
+from pyvc.contract import Bytes  # noqa: E402
+
+for _file, _tag in ((B, "passlib"), ("libpass/_utils/deprecated.py", "libpass")):
+    for _kind, _t in (("text", Str()), ("bytes", Bytes())):
+        CONTRACTS.append(Contract(
+            f"ab64_decode[{_tag}, {_kind}]", f"{_file}::ab64_decode",
+            params={"data": _t},
+            globals={"b64s_decode": _capture("b64s_decode")},
+            requires=[lambda it, env: it.all_codes_below(it.to_z3(env.lookup("data")), 128)],
+            raises={"ValueError": None},
+            ensures=[("the standard decoder receives the input with every '.' mapped to '+', for text and bytes input alike", _ab64_post)],
+            descr=f"every ASCII {_kind} input",
+        ))
